@@ -32,7 +32,8 @@ def C05_terminates_statement : Prop :=
 theorem C05_neg_tiering_crash :
     let b : Buffer := { (Buffer.init 100 10 100 5) with hot := { (Buffer.init 100 10 100 5).hot with cur := 30 } }
     b.loopDecide 7 = .error .index := by
-  decide
+  intro b
+  rfl
 
 /-- K1b: an observation tiered to the cold buffer is fetched back only if
 `(free + in-flight) / total < 0.6`; with an empty hot buffer that is false, so it
@@ -49,6 +50,7 @@ theorem C05_neg_double_admission :
     c.checkIngestCapacity 2 4 = true ∧
     (c.provisionIngest 2 0).2.1 = none ∧
     ((c.provisionIngest 2 0).1.provisionIngest 2 1).2.1 = some Err.runtime := by
+  intro c
   decide
 
 /-- the negation of the full statement (witness: one observation of 8 × 10 on a
